@@ -143,12 +143,12 @@ PLAN = {
         "level_note": "Trusted: pyvc encoder; string helper functions uninterpreted; lifespan fan-out not covered; 'modern' mode falling back to X-Forwarded-* when no Forwarded header is usable is an observation, not claimed either way.",
     },
     "C19": {
-        "units": ["hypercorn.__main__:main", "hypercorn.config:Config.response_headers", "hypercorn.config:Config.bind.setter", "hypercorn.config:Config.insecure_bind.setter",
+        "units": ["hypercorn.__main__:main", "hypercorn.__main__:_load_config", "hypercorn.config:Config.response_headers", "hypercorn.config:Config.bind.setter", "hypercorn.config:Config.insecure_bind.setter",
                   "hypercorn.config:Config.quic_bind.setter", "hypercorn.config:Config.root_path.setter"],
         "standins": [{"file": "standins/binds.py", "name": "bind string parsing (Config._create_sockets)", "label": "BOUNDED stand-in, not counted as proved"}],
         "trusted_base": ["argparse: the real parser object is built natively by main(); parse_args() is replaced by a namespace in which every option is either absent (its default) or given with an arbitrary value of its type",
                          "the option table of docs/how_to_guides/configuring.rst as oracle for which flag configures which setting"],
-        "assumptions": ["the loaders (from_mapping / from_object / from_pyfile / from_toml: setattr over arbitrary keys, importlib, tomllib) are not under contract; that they funnel into one setattr loop is by inspection only",
+        "assumptions": ["the loaders (from_mapping / from_object / from_pyfile / from_toml: setattr over arbitrary keys, importlib, tomllib) are not under contract; that they funnel into one setattr loop is by inspection only; what is proved about them is the route and the exact name _load_config hands over",
                         "deprecated aliases not in the documentation table (--access-log, --error-log, --cert-reqs) are assumed absent",
                         "format_date_time returns a well-formed RFC 7231 date"],
         "explanation": "command line: one obligation per configuration setting -- after main() the setting equals the flag's value if its flag was given and the loaded configuration's value otherwise -- proved for all 2^35 combinations of flags and all values; setters; response headers; bind strings by bounded enumeration",
@@ -246,3 +246,15 @@ PLAN["C17"] = {
     "level_text": "Postconditions, loop clauses and exceptional postconditions proved for all messages, bodies, header lists, application start modes and chunk sequences.",
     "level_note": "Trusted: pyvc encoder, WSGI application model, bridge model. The defect found by these obligations (lazily starting applications failed and were not closed) is fixed in /repo (8c281e3).",
 }
+
+# Round-5 seeded changes: units that the statements reach and the plans had left out.
+# C03 "transport write failure at any write": a failed write must tell the protocol (both servers)
+PLAN["C03"]["units"] = PLAN["C03"]["units"] + [ATS + "protocol_send", TTS + "protocol_send"]
+PLAN["C03"]["trusted_base"] = PLAN["C03"]["trusted_base"] + LIB_IO
+PLAN["C03"]["explanation"] += "; a write that fails in either server's protocol_send hands Closed to the protocol (so the disconnect is delivered whatever the reader is waiting on)"
+# C12 / C02: nothing is appended to an HTTP/2 send buffer once the end of the body was requested
+PLAN["C12"]["units"] = PLAN["C12"]["units"] + [SB + "push", SB + "set_complete"]
+PLAN["C12"]["explanation"] += "; on HTTP/2 a body that arrives after the end of the response was requested is not buffered (StreamBuffer.push)"
+# C05: END_STREAM only for streams whose layer asked for it; closed buffers do not stay registered
+PLAN["C05"]["units"] = PLAN["C05"]["units"] + [HP + "_send_data", SB + "set_complete", SB + "close", SB + "__init__"]
+PLAN["C05"]["explanation"] += "; HTTP/2: a finished stream layer leaves the h2 stream ended, reset or with its end requested (C05.h2.reset, finding F5), END_STREAM is only sent where the end was requested (C05.h2.no-false-end) and a buffer sealed by close() never stays registered (published invariant of StreamBuffer)"
